@@ -105,14 +105,21 @@ Proof.
   unfold maxWrite_of, SP.prefs_ok. destruct po as [p|].
   - unfold bufsize_of_bsid, C10_bsid_default, C10_bsid_64KB, C10_bsid_256KB, C10_bsid_1MB, C10_bsid_4MB.
     unfold SO.begin_prefs. destruct p as [bs lk cc cs di bc af]. cbn [SZ.p_bsid SZ.set_bsid].
-    destruct (bs =? 0) eqn:E0; [apply Z.eqb_eq in E0; subst bs; cbn; intro H; inversion H; split; reflexivity|].
+    assert (K : forall k v, bs = k -> SZ.valid_bsid0 k = true ->
+                v = SZ.getBlockSize (SZ.p_bsid (if k =? 0 then SZ.mkPrefs LZ4F_BLOCKSIZEID_DEFAULT lk cc cs di bc af else SZ.mkPrefs k lk cc cs di bc af)) ->
+                0 <= v -> Some (Z.to_nat v) = Some mw ->
+                SZ.valid_bsid0 bs = true /\
+                Z.of_nat mw = SZ.getBlockSize (SZ.p_bsid (if bs =? 0 then SZ.mkPrefs LZ4F_BLOCKSIZEID_DEFAULT lk cc cs di bc af else SZ.mkPrefs bs lk cc cs di bc af))).
+    { intros k v -> Hv Hg H0 H. injection H as <-. split; [exact Hv|]. rewrite Z2Nat.id by exact H0. exact Hg. }
+    destruct (bs =? 0) eqn:E0; [apply Z.eqb_eq in E0; cbn [orb]; apply (K 0 (64 * 1024)); [exact E0|reflexivity|reflexivity|lia]|].
     cbn [orb].
-    destruct (bs =? 4) eqn:E4; [apply Z.eqb_eq in E4; subst bs; cbn; intro H; inversion H; split; reflexivity|].
-    destruct (bs =? 5) eqn:E5; [apply Z.eqb_eq in E5; subst bs; cbn; intro H; inversion H; split; reflexivity|].
-    destruct (bs =? 6) eqn:E6; [apply Z.eqb_eq in E6; subst bs; cbn; intro H; inversion H; split; reflexivity|].
-    destruct (bs =? 7) eqn:E7; [apply Z.eqb_eq in E7; subst bs; cbn; intro H; inversion H; split; reflexivity|].
+    destruct (bs =? 4) eqn:E4; [apply Z.eqb_eq in E4; apply (K 4 (64 * 1024)); [exact E4|reflexivity|reflexivity|lia]|].
+    destruct (bs =? 5) eqn:E5; [apply Z.eqb_eq in E5; apply (K 5 (256 * 1024)); [exact E5|reflexivity|reflexivity|lia]|].
+    destruct (bs =? 6) eqn:E6; [apply Z.eqb_eq in E6; apply (K 6 (1 * 1024 * 1024)); [exact E6|reflexivity|reflexivity|lia]|].
+    destruct (bs =? 7) eqn:E7; [apply Z.eqb_eq in E7; apply (K 7 (4 * 1024 * 1024)); [exact E7|reflexivity|reflexivity|lia]|].
     discriminate.
-  - intro H. inversion H. split; [exact I|reflexivity].
+  - intro H. apply (f_equal (fun o => match o with Some n => Z.of_nat n | None => 0 end)) in H. cbv beta iota in H.
+    rewrite Z2Nat.id in H by lia. split; [exact I|]. rewrite <- H. reflexivity.
 Qed.
 
 Lemma cb_po_ge po n : SP.prefs_ok po -> 0 <= n ->
